@@ -10,7 +10,7 @@ def gen_base(seed_i, tools=False):
     st = Streams(seed_i)
     kn, wl = st["knobs"], st["workload"]
     enc = kn.choice(["latin_1", "cp500"]) if tools else kn.choice(ENCODINGS)
-    if tools or kn.random() < 0.65:
+    if kn.random() < (0.75 if tools else 0.65):
         cfgj = "packaged"
     else:
         cfgj = msggen.gen_config(st["config"])
@@ -48,8 +48,9 @@ def gen_file_base(seed_i, tools=False, nmax=8):
             cfg = msgcodec.effective_cfg(cfgj)
             m = msggen.gen_message(Streams(seed_i * 1000003 + j)["workload"], cfg, enc, 6000)
             msgs.append(msgcodec.msg_to_json(m))
+    knobs = {} if kn.random() < 0.7 else {"MAX_VBS_RECORD_LENGTH": kn.choice([50, 1012, 6000, 10000])}
     return {"kind": "ipm_corrupt", "encoding": enc, "config": cfgj, "blocked": kn.random() < 0.5,
-            "messages": msgs, "rec_faults": [], "file_faults": [], "reader": "IpmReader", "knobs": {}}
+            "messages": msgs, "rec_faults": [], "file_faults": [], "reader": "IpmReader", "knobs": knobs}
 
 
 def plan_message_faults(base, clean, reading, tier, rng, directed=True):
